@@ -80,7 +80,7 @@ func Reduce(v reflect.Value, f jtypes.Callable, init jtypes.OptionalValue) (inte
 	i := 0
 	switch {
 	case init.IsSet():
-		res = jtypes.Resolve(init.Value)
+		res = init.Value
 	case arrayLen(v) > 0:
 		res = v.Index(0)
 		i = 1
